@@ -12,6 +12,7 @@ pub mod c13;
 pub mod c15;
 pub mod c16;
 pub mod c17;
+pub mod c19;
 
 use crate::report::Run;
 
@@ -30,6 +31,7 @@ pub fn dispatch(run: &Run) -> bool {
         "C15" => c15::run(run),
         "C16" => c16::run(run),
         "C17" => c17::run(run),
+        "C19" => c19::run(run),
         _ => return false,
     }
     true
